@@ -1265,7 +1265,7 @@ class Bits:
                     raise ValueError(
                         f"The '{dtype.name}' type must have a bit length that is a multiple of {dtype.bits_per_item}"
                         f" so cannot be created from the {bitlength} bits that are available for this stretchy token.")
-                dtype = Dtype(dtype.name, items)
+                dtype = Dtype(dtype.name, items, dtype.scale)
             if dtype.bitlength is not None:
                 val = dtype.read_fn(self, pos)
                 pos += dtype.bitlength
